@@ -6,6 +6,10 @@ use tvh_common::*;
 
 use crate::kern::*;
 
+/// kernels logged for windows wider than 8 (small exact denominators, specified for any width)
+const WIDE_OK: &[&str] = &["sum", "mean", "wma", "var", "std", "min", "max", "argmin", "argmax", "rank", "rank_rev",
+                           "rank_pct", "rank_rev_pct", "minmaxnorm", "slope"];
+
 fn kind_of(k: &str) -> Option<ProjKind> {
     Some(match k {
         "min" | "max" | "argmin" | "argmax" => ProjKind::Int,
@@ -77,8 +81,9 @@ pub fn record_roll1(args: &Args) {
     let mut rng = Rng::new(seed);
     let mut wr = NdWriter::create(args.req("out"));
     let mut events = 0u64;
+    let wide = args.flag("wide");
     for r in 0..runs {
-        let w = rng.range(1, 6) as usize;
+        let w = if wide { rng.range(9, 40) as usize } else { rng.range(1, 6) as usize };
         let mp_raw = if rng.chance(1, 4) { -1 } else { rng.range(0, w as i64) };
         let mp = if mp_raw < 0 { None } else { Some(mp_raw as usize) };
         let len = steps + rng.below(steps as u64 / 4 + 1) as usize;
@@ -86,7 +91,7 @@ pub fn record_roll1(args: &Args) {
         let cellsel = r % 3;
         let mut outs: Vec<(&str, Vec<Obs>)> = Vec::new();
         for k in VALID_KERNELS.iter().chain(FD_KERNELS.iter()) {
-            if kind_of(k).is_none() {
+            if kind_of(k).is_none() || (wide && !WIDE_OK.contains(k)) {
                 continue;
             }
             let o: Result<Vec<Obs>, String> = if let Some(d) = fd_order(k) {
